@@ -26,6 +26,8 @@ type fakeScript struct {
 	StdinFaultAt int
 	// Answer, if set, builds the response for a request (default: empty response with the name).
 	Answer func(req *conformancev1.ClientCompatRequest) *conformancev1.ClientCompatResponse
+	// OnReceive, if set, is told about every request at the moment the client reads it from its input.
+	OnReceive func(req *conformancev1.ClientCompatRequest)
 }
 
 type fakeProc struct {
@@ -33,28 +35,29 @@ type fakeProc struct {
 	script    fakeScript
 	anonymous bool // thread labels do not mention test names (map-order independence)
 
-	mu          sync.Mutex // real mutex, never held across a gate or a blocking operation
-	inbuf       []byte
-	msgsWritten int // request messages whose prefix was written
-	received    []string
-	outstanding int
-	emitted     map[string]int
-	emittedN    int
-	lastAnswer  []byte
-	faultDone   bool
-	stalled     bool
-	stdinClosed bool // closed by the runner
-	stdinBroken bool // closed from the client's side
-	exited      bool
-	exitErr     error
-	aborted     bool
-	done        chan struct{}
-	outbuf      []byte
-	outClosed   bool
-	outNotify   chan struct{}
-	emitLog     []byte
-	faultBytes  bool           // some scripted fault wrote bytes to stdout
-	clean       map[string]int // answers emitted while the output stream was still well-formed
+	mu            sync.Mutex // real mutex, never held across a gate or a blocking operation
+	inbuf         []byte
+	msgsWritten   int // request messages whose prefix was written
+	received      []string
+	outstanding   int
+	emitted       map[string]int
+	emittedN      int
+	lastAnswer    []byte
+	faultDone     bool
+	stalled       bool
+	stdinClosed   bool // closed by the runner
+	stdinBroken   bool // closed from the client's side
+	exited        bool
+	exitErr       error
+	aborted       bool
+	done          chan struct{}
+	outbuf        []byte
+	outClosed     bool
+	outNotify     chan struct{}
+	emitLog       []byte
+	blockedWrites int
+	faultBytes    bool           // some scripted fault wrote bytes to stdout
+	clean         map[string]int // answers emitted while the output stream was still well-formed
 }
 
 func newFakeProc(x *gate.Exec, script fakeScript) *fakeProc {
@@ -133,7 +136,7 @@ func (fp *fakeProc) whenDone(action func(error)) {
 func (fp *fakeProc) stateKey() string {
 	fp.mu.Lock()
 	defer fp.mu.Unlock()
-	return fmt.Sprintf("in=%x/%d recv=%v out=%d emitlog=%x unread=%d fault=%v stall=%v sc=%v sb=%v ex=%v/%v ab=%v",
+	return fmt.Sprintf("bw=%d ", fp.blockedWrites) + fmt.Sprintf("in=%x/%d recv=%v out=%d emitlog=%x unread=%d fault=%v stall=%v sc=%v sb=%v ex=%v/%v ab=%v",
 		fp.inbuf, fp.msgsWritten, fp.received, fp.outstanding, fp.emitLog, len(fp.outbuf), fp.faultDone, fp.stalled,
 		fp.stdinClosed, fp.stdinBroken, fp.exited, fp.exitErr, fp.aborted)
 }
@@ -197,7 +200,7 @@ func frame(msg proto.Message) []byte {
 }
 
 func (fp *fakeProc) emitLocked(b []byte) {
-	if fp.exited {
+	if fp.exited || fp.outClosed {
 		return
 	}
 	fp.outbuf = append(fp.outbuf, b...)
@@ -248,6 +251,10 @@ func (fp *fakeProc) doFault() {
 		fp.emitLocked([]byte{0xff, 0xff, 0xff, 0xff})
 	case "stall":
 		fp.stalled = true
+	case "closeout":
+		// the client closes its output but stays alive and keeps reading its input
+		fp.outClosed = true
+		fp.notifyLocked()
 	default:
 		panic("unknown fault " + fp.script.Fault)
 	}
@@ -272,6 +279,16 @@ func (s *fakeStdin) Write(p []byte) (int, error) {
 	fp.mu.Lock()
 	if fp.exited || fp.stdinClosed || fp.stdinBroken {
 		fp.mu.Unlock()
+		return 0, io.ErrClosedPipe
+	}
+	if fp.script.StdinFault == "block" && len(fp.inbuf) == 0 && fp.msgsWritten == fp.script.StdinFaultAt {
+		// the client no longer reads its input: the pipe is full and the write blocks
+		// until the process goes away
+		fp.msgsWritten++
+		fp.blockedWrites++
+		fp.mu.Unlock()
+		gate.Poke()
+		<-fp.done
 		return 0, io.ErrClosedPipe
 	}
 	atPrefix := len(fp.inbuf) == 0
@@ -306,6 +323,11 @@ func (s *fakeStdin) Write(p []byte) (int, error) {
 	}
 	nth := len(fp.received)
 	fp.mu.Unlock()
+	if fp.script.OnReceive != nil {
+		for _, req := range reqs {
+			fp.script.OnReceive(req)
+		}
+	}
 	for i, req := range reqs {
 		req := req
 		label := fmt.Sprintf("answer#%d:%s", nth-len(reqs)+i, req.TestName)
@@ -339,7 +361,7 @@ func (s *fakeStdin) Write(p []byte) (int, error) {
 			fp.mu.Lock()
 			defer fp.mu.Unlock()
 			fp.outstanding--
-			if fp.exited {
+			if fp.exited || fp.outClosed {
 				return
 			}
 			b := frame(resp)
